@@ -71,7 +71,7 @@ func (w *World) Infos() []*resource.Info {
 			res = append(res, info(&appsv1.StatefulSet{ObjectMeta: metav1.ObjectMeta{Name: wl.Name, Namespace: wl.NS},
 				Spec: appsv1.StatefulSetSpec{Replicas: &r, Template: tmpl}}, "apps/v1", "StatefulSet"))
 		case "Pod":
-			res = append(res, info(&corev1.Pod{ObjectMeta: metav1.ObjectMeta{Name: wl.Name, Namespace: wl.NS, Labels: wl.Labels}, Spec: tmpl.Spec}, "v1", "Pod"))
+			res = append(res, InfoPod(wl.NS, wl.Name, wl.Owner, wl.Labels, wl.Ports))
 		default:
 			panic("kind")
 		}
